@@ -150,3 +150,68 @@ func VerifC10RoundTrip(n, d int) {
 		verifAssert("rt.unmarshal.len", len(r) == n)
 	}
 }
+
+// VerifC10LeadingZeros: a component made of z zeros followed by n arbitrary characters (so components of
+// 11 and more characters are covered without the solver having to read 11 unknown digits): accepted iff
+// the reference accepts, value = decimal reading — leading zeros neither change the value nor count
+// against any length or range limit.
+//
+//verif:run quick z=8 n=3
+//verif:run quick z=10 n=2
+//verif:run quick z=19 n=2
+//verif:run quick z=64 n=1
+//verif:run thorough z=7,9 n=4
+//verif:run thorough z=300 n=2
+//verif:timeout 120
+func VerifC10LeadingZeros(z, n int) {
+	zeros := make([]byte, z)
+	for i := range zeros {
+		zeros[i] = '0'
+	}
+	tail := verifString("tail", n)
+	for i := 0; i < n; i++ {
+		verifAssume(tail[i] < 0x80 && tail[i] != '/')
+	}
+	s := string(zeros) + tail
+	p, err := ParsePath(s)
+	want, ok := verifRefComponent(s)
+	verifAssert("zeros.accept", (err == nil) == ok)
+	if err == nil && ok {
+		verifAssert("zeros.value", len(p) == 1 && p[0] == want)
+	}
+	// and behind a prefix / as a later component
+	q, err2 := ParsePath("m/7'/" + s)
+	verifAssert("zeros.accept.later", (err2 == nil) == ok)
+	if err2 == nil && ok {
+		verifAssert("zeros.value.later", len(q) == 2 && q[0] == 7|hardened && q[1] == want)
+	}
+}
+
+// VerifC10PrintStable: text obtained from MarshalText / String stays what it was while other paths are
+// printed afterwards (a caller may keep it), and later prints are not influenced by earlier ones.
+//
+//verif:run quick d=2
+//verif:run thorough d=4
+//verif:timeout 120
+func VerifC10PrintStable(d int) {
+	lim := uint32(1)
+	for k := 0; k < d; k++ {
+		lim *= 10
+	}
+	a := Path{verifU32("a0"), verifU32("a1")}
+	b := Path{verifU32("b0")}
+	verifAssume(a[0]&^hardened < lim && a[1]&^hardened < lim && b[0]&^hardened < lim)
+	ta, e1 := a.MarshalText()
+	verifAssert("stable.noerr", e1 == nil)
+	keep := string(ta)
+	sb := b.String()
+	tb, e2 := b.MarshalText()
+	verifAssert("stable.noerr", e2 == nil)
+	verifAssert("stable.first.text.kept", string(ta) == keep)
+	verifAssert("stable.second.text", string(tb) == sb)
+	sa := a.String()
+	verifAssert("stable.first.again", sa == keep)
+	verifAssert("stable.second.kept", string(tb) == sb)
+	var r Path
+	verifAssert("stable.first.parses", r.UnmarshalText(ta) == nil && len(r) == 2 && r[0] == a[0] && r[1] == a[1])
+}
